@@ -47,7 +47,7 @@ impl trace::Context {
     #[verifier::external_body]
     pub fn try_from(span: &Span) -> (r: Result<trace::Context, NoActiveSpan>) { unimplemented!() }
     /// `trace::Context::new_child`: same trace id and sampling decision, fresh span id
-    /// (proved on the real code by Kani harness k6_new_child_keeps_trace)
+    /// (proved on the real trace::Context::new_child in Verus unit trace_ctx)
     #[verifier::external_body]
     pub fn new_child(&self) -> (r: trace::Context)
         ensures r.trace_id == self.trace_id, r.sampled == self.sampled
